@@ -35,7 +35,11 @@ type Server struct {
 	payeeTemplatesCache   sync.Map // map[protocol.DocumentURI]map[string][]analyzer.PostingTemplate
 	publishMu             sync.Mutex
 	docMu                 sync.Mutex // a document's text and its recorded include resolution change together
-	refreshMu             sync.Mutex
+	// docVersions counts the open/change/close notifications per document (guarded
+	// by docMu): an analysis is superseded when a later notification arrived, even
+	// if the text is the same again
+	docVersions map[protocol.DocumentURI]uint64
+	refreshMu   sync.Mutex
 }
 
 func NewServer() *Server {
@@ -175,8 +179,9 @@ func (s *Server) DidOpen(ctx context.Context, params *protocol.DidOpenTextDocume
 	s.docMu.Lock()
 	s.documents.Store(params.TextDocument.URI, params.TextDocument.Text)
 	s.resolved.Delete(params.TextDocument.URI)
+	version := s.nextDocVersionLocked(params.TextDocument.URI)
 	s.docMu.Unlock()
-	go s.publishDiagnostics(ctx, params.TextDocument.URI, params.TextDocument.Text)
+	go s.publishDiagnosticsVersion(ctx, params.TextDocument.URI, params.TextDocument.Text, version)
 	return nil
 }
 
@@ -198,6 +203,7 @@ func (s *Server) DidChange(ctx context.Context, params *protocol.DidChangeTextDo
 		s.docMu.Lock()
 		s.documents.Store(params.TextDocument.URI, content)
 		s.resolved.Delete(params.TextDocument.URI)
+		version := s.nextDocVersionLocked(params.TextDocument.URI)
 		s.docMu.Unlock()
 		s.payeeTemplatesCache.Delete(params.TextDocument.URI)
 		if path := uriToPath(params.TextDocument.URI); path != "" {
@@ -207,7 +213,7 @@ func (s *Server) DidChange(ctx context.Context, params *protocol.DidChangeTextDo
 			// the loader's cache is used with and without a workspace
 			s.loader.InvalidateFile(path)
 		}
-		go s.publishDiagnostics(ctx, params.TextDocument.URI, content)
+		go s.publishDiagnosticsVersion(ctx, params.TextDocument.URI, content, version)
 	}
 	return nil
 }
@@ -221,6 +227,7 @@ func (s *Server) DidClose(ctx context.Context, params *protocol.DidCloseTextDocu
 	s.docMu.Lock()
 	s.documents.Delete(params.TextDocument.URI)
 	s.resolved.Delete(params.TextDocument.URI)
+	s.nextDocVersionLocked(params.TextDocument.URI)
 	s.docMu.Unlock()
 	s.payeeTemplatesCache.Delete(params.TextDocument.URI)
 	tokenCache.delete(params.TextDocument.URI)
@@ -252,7 +259,28 @@ func (s *Server) DidSave(ctx context.Context, params *protocol.DidSaveTextDocume
 	return nil
 }
 
+// nextDocVersionLocked counts one more notification for the document; docMu is held.
+func (s *Server) nextDocVersionLocked(docURI protocol.DocumentURI) uint64 {
+	if s.docVersions == nil {
+		s.docVersions = make(map[protocol.DocumentURI]uint64)
+	}
+	s.docVersions[docURI]++
+	return s.docVersions[docURI]
+}
+
+func (s *Server) docVersion(docURI protocol.DocumentURI) uint64 {
+	s.docMu.Lock()
+	defer s.docMu.Unlock()
+	return s.docVersions[docURI]
+}
+
 func (s *Server) publishDiagnostics(ctx context.Context, docURI protocol.DocumentURI, content string) {
+	s.publishDiagnosticsVersion(ctx, docURI, content, s.docVersion(docURI))
+}
+
+// publishDiagnosticsVersion analyses the text that the notification counted as
+// version put in place.
+func (s *Server) publishDiagnosticsVersion(ctx context.Context, docURI protocol.DocumentURI, content string, version uint64) {
 	if s.client == nil {
 		return
 	}
@@ -273,7 +301,7 @@ func (s *Server) publishDiagnostics(ctx context.Context, docURI protocol.Documen
 	resolved, loadErrors := s.loader.LoadFromContent(path, content)
 	// only the analysis of the document's current content may record its result
 	s.docMu.Lock()
-	if current, ok := s.GetDocument(docURI); !ok || current != content {
+	if current, ok := s.GetDocument(docURI); !ok || current != content || s.docVersions[docURI] != version {
 		s.docMu.Unlock()
 		return
 	}
@@ -308,7 +336,7 @@ func (s *Server) publishDiagnostics(ctx context.Context, docURI protocol.Documen
 	// not publish after (and thereby overwrite) the diagnostics of a newer one.
 	s.publishMu.Lock()
 	defer s.publishMu.Unlock()
-	if current, ok := s.GetDocument(docURI); ok && current != content {
+	if current, ok := s.GetDocument(docURI); ok && (current != content || s.docVersion(docURI) != version) {
 		return
 	}
 
